@@ -10,11 +10,14 @@ import Asn1cModel.Proofs.L2Xer
 
   * `xer_roundtrip` (+ `_consumed`): for the types of `rtTy` - BOOLEAN, NULL, INTEGER, ENUMERATED, OCTET STRING,
     BIT STRING, the UTF-8 written character strings (UTF8String, IA5String, VisibleString, PrintableString,
-    NumericString: escaping of & < > and of the control characters), SEQUENCE (OPTIONAL / DEFAULT / extension
-    components), CHOICE, SEQUENCE OF with tag-wrapped elements, with a BOOLEAN / ENUMERATED / NULL value list or
-    with unwrapped CHOICE elements, nested arbitrarily - and the values of `rtVal`, decoding what the encoder
-    wrote returns the value, in both variants.  Outside: REAL, BMPString / UniversalString (F150),
-    OBJECT IDENTIFIER, time types, SET, SET OF (CANONICAL-XER reorders the elements).  BASIC-XER leaves the final newline unconsumed (finding F30), CANONICAL-XER consumes everything.
+    NumericString, GeneralizedTime, UTCTime: escaping of & < > and of the control characters), BMPString and
+    UniversalString (finding F150 repaired: the same escaping; code points below 2^31), SEQUENCE (OPTIONAL /
+    DEFAULT / extension components), CHOICE, SEQUENCE OF with tag-wrapped elements, with a BOOLEAN / ENUMERATED /
+    NULL value list or with unwrapped CHOICE elements, nested arbitrarily - and the values of `rtVal`, decoding
+    what the encoder wrote returns the value, in both variants.  The identifiers of the components are arbitrary
+    tag names (finding F153 repaired: a component may be called like a value tag of its type, `<red><red/></red>`).
+    Outside: REAL, OBJECT IDENTIFIER, SET, SET OF (CANONICAL-XER reorders the elements).  BASIC-XER leaves the
+    final newline unconsumed (finding F30), CANONICAL-XER consumes everything.
   * `xer_basic_canonical_same_value`: the BASIC and the CANONICAL rendering of a value decode alike.
   * `cxer_setOf_perm`: the CANONICAL-XER encoding of a SET OF does not depend on the order of the elements.
   * `cxer_seq_default_indep` / `cxer_set_default_indep` (finding F56, repaired): the CANONICAL-XER encoding of a
@@ -25,24 +28,25 @@ import Asn1cModel.Proofs.L2Xer
     value with that component absent.
   * `tokens_render`: the tokenizer (model of `pxml_parse` / `xer_next_token`) inverts the rendering of
     well-formed token lists.
-  * the hypotheses of the round trip are necessary: `ref_F153_witness` (an ENUMERATED component whose identifier
-    is also one of its items does NOT round-trip), and the model reproduces the known / proposed findings
-    `ref_F59_witness`, `ref_F150_witness`.
+  * repaired findings, each with a general statement and its former witness: `xer_value_tag_named_like_element`
+    / `ref_F153_witness` (F153), `xer_boolean_white_space` / `ref_F59_witness` (F59: white space between the tags
+    of a BOOLEAN element and its value), `xer_roundtrip_bmpstring` / `xer_roundtrip_universalstring` /
+    `ref_F150_witness` (F150), `ref_F152_witness` (F152: `&#;` `&#x;` `&#0;` are a decoding error).
 -/
 namespace Asn1c.Props.C01Xer
 open Asn1c Asn1c.L2 Asn1c.L2.Xer Asn1c.Proofs.L2Xer
 
-/-- the XER-relevant well-formedness of a top-level type: its name is a tag name that does not collide with
-    a value tag of the type itself, and the type is in the supported subset -/
-def topOk (t : XTop) : Bool := nameOk t.name && !clash t.ty t.name && rtTy t.ty
+/-- the XER-relevant well-formedness of a top-level type: its name is a tag name and the type is in the supported
+    subset -/
+def topOk (t : XTop) : Bool := nameOk t.name && rtTy t.ty
 
 /-- **C01 for XER**: decoding the BASIC-XER / CANONICAL-XER encoding of a value returns the value;
     the decoder consumes everything but the final newline of BASIC-XER (finding F30) -/
 theorem xer_roundtrip_consumed (c : Bool) (t : XTop) (v : Val) (bs : Bytes) (ht : topOk t = true)
     (hv : rtVal c t.ty v = true) (he : encXER c t v = some bs) :
     decXERc t bs = some (v, if c then bs.length else bs.length - 1) := by
-  simp only [topOk, Bool.and_eq_true, Bool.not_eq_true'] at ht
-  obtain ⟨⟨hn, hc⟩, hty⟩ := ht
+  simp only [topOk, Bool.and_eq_true] at ht
+  obtain ⟨hn, hty⟩ := ht
   unfold encXER at he
   cases hb : encTy c t.ty 1 v with
   | none => simp [hb] at he
@@ -50,7 +54,7 @@ theorem xer_roundtrip_consumed (c : Bool) (t : XTop) (v : Val) (bs : Bytes) (ht 
     simp only [hb, Option.map_some, Option.some.injEq] at he
     subst he
     have h := rt_all t.ty hty c t.name 1 v body (if c = true then [] else [10])
-      ((openTag t.name ++ body ++ closeTag t.name ++ if c = true then [] else [10]).length + 2) hn hc hv hb
+      ((openTag t.name ++ body ++ closeTag t.name ++ if c = true then [] else [10]).length + 2) hn hv hb
       (by simp only [List.length_append, openTag_length, closeTag_length]; omega)
     unfold decXERc
     rw [h]
@@ -63,10 +67,10 @@ theorem xer_roundtrip (c : Bool) (t : XTop) (v : Val) (bs : Bytes) (ht : topOk t
 
 /-- the same statement for a component / element decoder in its context: arbitrary bytes may follow -/
 theorem xer_roundtrip_member (c : Bool) (t : XTy) (name : Bytes) (il : Nat) (v : Val) (body rest : Bytes)
-    (ht : rtTy t = true) (hn : nameOk name = true) (hc : clash t name = false) (hv : rtVal c t v = true)
+    (ht : rtTy t = true) (hn : nameOk name = true) (hv : rtVal c t v = true)
     (he : encTy c t il v = some body) :
     decTy (body.length + 4) t name (openTag name ++ body ++ closeTag name ++ rest) = some (v, rest) :=
-  rt_all t ht c name il v body rest _ hn hc hv he (Nat.le_refl _)
+  rt_all t ht c name il v body rest _ hn hv he (Nat.le_refl _)
 
 /-- BASIC-XER and CANONICAL-XER are two renderings of one value: both decode to it (for a value in the domain
     of both round trips: a DEFAULT component, if stored, holds another value than the default - the two
@@ -341,36 +345,172 @@ theorem tokens_render : ∀ (ts : List Tok) (f : Nat), (∀ t ∈ ts, t.wf) → 
     simp only [tokens, nextTok_render t hwt _ hnext, List.map_cons]
     rw [ih f' (fun x hx => hw x (by simp [hx])) hc' (by simp at hf; omega)]
 
-/-! ### the hypotheses are necessary / the model reproduces the findings -/
+/-! ### repaired findings: general statements and the former witnesses -/
+
+/-- **F153 (repaired)**: a value tag may be called like the element that carries it - for every tag name `name`,
+    also `true` / `false`, `<name><true/></name>` decodes to TRUE and `<name><false/></name>` to FALSE ... -/
+theorem xer_value_tag_named_like_element_boolean (name rest : Bytes) (b : Bool) (hn : nameOk name = true) :
+    decTy 12 .boolean name (openTag name ++ (if b then litTrueTag else litFalseTag) ++ closeTag name ++ rest) =
+      some (.bool b, rest) := by
+  have h := rt_all .boolean rfl true name 1 (.bool b) _ rest 12 hn rfl rfl (by cases b <;> decide)
+  exact h
+
+/-- ... and an ENUMERATED element called like one of its items decodes to that item -/
+theorem xer_value_tag_named_like_element (ns : List Bytes) (vs : List Int) (z : Int) (x rest : Bytes)
+    (hok : rtTy (.enumerated ns vs) = true) (hx : lookupName ns vs z = some x) :
+    decTy ((emptyTag x).length + 4) (.enumerated ns vs) x (openTag x ++ emptyTag x ++ closeTag x ++ rest) =
+      some (.int z, rest) := by
+  have hok' : enumOkB ns vs = true := by simpa [rtTy] using hok
+  have hxn : nameOk x = true := (enumOk_of_B hok').2.2.1 x (lookupName_mem ns vs z x hx).1
+  exact rt_all _ hok true x 1 (.int z) (emptyTag x) rest _ hxn (by simp [rtVal, hx]) (by simp [encTy, hx]) (Nat.le_refl _)
 
 /-- `S ::= SEQUENCE { red ENUMERATED { red, green } }` -/
 def exEnumClash : XTop :=
   ⟨[83], .seq [[114, 101, 100]] [.enumerated [[114, 101, 100], [103, 114, 101, 101, 110]] [0, 1]] [⟨false, none, false⟩] none⟩
 
-/-- proposed finding F153: the value `{ red red }` is written as `<S><red><red/></red></S>`, which the decoder rejects
-    (`<red/>` inside `<red>` is taken for the empty element `red` itself); `{ red green }` is fine -/
+/-- `S ::= SEQUENCE { true BOOLEAN, false BOOLEAN }` -/
+def exBoolClash : XTop :=
+  ⟨[83], .seq [[116, 114, 117, 101], [102, 97, 108, 115, 101]] [.boolean, .boolean] [⟨false, none, false⟩, ⟨false, none, false⟩] none⟩
+
+example : topOk exEnumClash = true := by decide
+example : topOk exBoolClash = true := by decide
+
+/-- the former witness of finding F153: the value `{ red red }` is written as `<S><red><red/></red></S>` and
+    decodes to itself (it was rejected: `<red/>` inside `<red>` was taken for the empty element `red`);
+    likewise `{ true TRUE, false FALSE }`; the empty element `<red/>` alone remains an error -/
 theorem ref_F153_witness :
+    Xer.strBytes "<S><red><red/></red></S>" = [60, 83, 62, 60, 114, 101, 100, 62, 60, 114, 101, 100, 47, 62, 60, 47, 114, 101, 100, 62, 60, 47, 83, 62] ∧
     encXER true exEnumClash (.seq [.int 0]) = some [60, 83, 62, 60, 114, 101, 100, 62, 60, 114, 101, 100, 47, 62, 60, 47, 114, 101, 100, 62, 60, 47, 83, 62] ∧
-    decXER exEnumClash [60, 83, 62, 60, 114, 101, 100, 62, 60, 114, 101, 100, 47, 62, 60, 47, 114, 101, 100, 62, 60, 47, 83, 62] = none ∧
-    ((encXER true exEnumClash (.seq [.int 1])).bind (decXER exEnumClash)).isSome = true := by
-  refine ⟨rfl, rfl, by decide +kernel⟩
+    decXER exEnumClash [60, 83, 62, 60, 114, 101, 100, 62, 60, 114, 101, 100, 47, 62, 60, 47, 114, 101, 100, 62, 60, 47, 83, 62] = some (.seq [.int 0]) ∧
+    -- `<S><red><green/></red></S>`, `<S><red/></S>`
+    decXER exEnumClash [60, 83, 62, 60, 114, 101, 100, 62, 60, 103, 114, 101, 101, 110, 47, 62, 60, 47, 114, 101, 100, 62, 60, 47, 83, 62] = some (.seq [.int 1]) ∧
+    decXER exEnumClash [60, 83, 62, 60, 114, 101, 100, 47, 62, 60, 47, 83, 62] = none ∧
+    Xer.strBytes "<S><true><true/></true><false><false/></false></S>" = [60, 83, 62, 60, 116, 114, 117, 101, 62, 60, 116, 114, 117, 101, 47, 62, 60, 47, 116, 114, 117, 101, 62, 60, 102, 97, 108, 115, 101, 62, 60, 102, 97, 108, 115, 101, 47, 62, 60, 47, 102, 97, 108, 115, 101, 62, 60, 47, 83, 62] ∧
+    encXER true exBoolClash (.seq [.bool true, .bool false]) = some [60, 83, 62, 60, 116, 114, 117, 101, 62, 60, 116, 114, 117, 101, 47, 62, 60, 47, 116, 114, 117, 101, 62, 60, 102, 97, 108, 115, 101, 62, 60, 102, 97, 108, 115, 101, 47, 62, 60, 47, 102, 97, 108, 115, 101, 62, 60, 47, 83, 62] ∧
+    decXER exBoolClash [60, 83, 62, 60, 116, 114, 117, 101, 62, 60, 116, 114, 117, 101, 47, 62, 60, 47, 116, 114, 117, 101, 62, 60, 102, 97, 108, 115, 101, 62, 60, 102, 97, 108, 115, 101, 47, 62, 60, 47, 102, 97, 108, 115, 101, 62, 60, 47, 83, 62] = some (.seq [.bool true, .bool false]) := by
+  have e0 : encXER true exEnumClash (.seq [.int 0]) =
+      some [60, 83, 62, 60, 114, 101, 100, 62, 60, 114, 101, 100, 47, 62, 60, 47, 114, 101, 100, 62, 60, 47, 83, 62] := rfl
+  have e1 : encXER true exEnumClash (.seq [.int 1]) =
+      some [60, 83, 62, 60, 114, 101, 100, 62, 60, 103, 114, 101, 101, 110, 47, 62, 60, 47, 114, 101, 100, 62, 60, 47, 83, 62] := rfl
+  refine ⟨by decide +kernel, e0, xer_roundtrip true exEnumClash _ _ (by decide) (by decide) e0,
+    xer_roundtrip true exEnumClash _ _ (by decide) (by decide) e1, rfl, by decide +kernel, rfl, rfl⟩
+
+/-- white space in the sense of `xer_whitespace_span` (HT, LF, CR, SPACE) -/
+def wsOnly (w : Bytes) : Bool := w.all isWsP
+
+theorem wsOnly_noLT {w : Bytes} (h : wsOnly w = true) : ∀ c ∈ w, c ≠ cLT := by
+  intro c hc e
+  have := List.all_eq_true.mp h c hc
+  subst e
+  revert this; decide
+
+theorem dropWhile_wsOnly {w : Bytes} (h : wsOnly w = true) : w.dropWhile isWsP = [] := by
+  induction w with
+  | nil => rfl
+  | cons c r ih =>
+    simp only [wsOnly, List.all_cons, Bool.and_eq_true] at h
+    simp only [List.dropWhile_cons, h.1, if_true]
+    exact ih h.2
+
+/-- **F59 (repaired)**: white space between the tags of a BOOLEAN element and its `<true/>` / `<false/>` is
+    insignificant: `<b> <true/> </b>` decodes like `<b><true/></b>`, for any white space before and after -/
+theorem xer_boolean_white_space (name w₁ w₂ rest : Bytes) (b : Bool) (hn : nameOk name = true)
+    (h₁ : wsOnly w₁ = true) (h₂ : wsOnly w₂ = true) :
+    decPrim boolBody name (openTag name ++ w₁ ++ (if b then litTrueTag else litFalseTag) ++ w₂ ++ closeTag name ++ rest) =
+      some (.bool b, rest) := by
+  have hx : ∃ x, nameOk x = true ∧ (if b then litTrueTag else litFalseTag) = emptyTag x ∧ boolBody (emptyTag x) = .consumed (.bool b) := by
+    cases b
+    · exact ⟨litFalse, nameOk_false, rfl, boolBody_false⟩
+    · exact ⟨litTrue, nameOk_true, rfl, boolBody_true⟩
+  obtain ⟨x, hxn, hxe, hxb⟩ := hx
+  rw [hxe]
+  unfold Xer.decPrim
+  obtain ⟨f, hf⟩ : ∃ f, (openTag name ++ w₁ ++ emptyTag x ++ w₂ ++ closeTag name ++ rest).length + 1 = f + 5 :=
+    ⟨(openTag name ++ w₁ ++ emptyTag x ++ w₂ ++ closeTag name ++ rest).length - 4, by
+      simp only [List.length_append, openTag_length, closeTag_length, emptyTag_length]; omega⟩
+  rw [hf]
+  simp only [List.append_assoc]
+  rw [dg_open _ _ hn]
+  -- the white space before the value: an empty chunk is XPBD_NOT_BODY_IGNORE
+  have step1 : ∀ (g : Nat) (r : Bytes), decGeneral (primCb boolBody) name (g + 2) true none (w₁ ++ (emptyTag x ++ r)) =
+      decGeneral (primCb boolBody) name g true (some (.bool b)) r ∨
+      decGeneral (primCb boolBody) name (g + 2) true none (w₁ ++ (emptyTag x ++ r)) =
+      decGeneral (primCb boolBody) name (g + 1) true (some (.bool b)) r := by
+    intro g r
+    by_cases hw : w₁ = []
+    · subst hw
+      right
+      rw [List.nil_append, dg_unexp _ _ hn _ _ _ _ hxn]
+      simp [primCb, hxb]
+    · left
+      rw [emptyTag_eq, dg_text _ _ _ _ _ _ hw (wsOnly_noLT h₁)]
+      have hign : boolBody [] = .ignore := rfl
+      simp only [primCb, dropWhile_wsOnly h₁, hign, Option.bind_some]
+      rw [← emptyTag_eq, dg_unexp _ _ hn _ _ _ _ hxn]
+      simp [primCb, hxb]
+  -- the white space after the value
+  have step2 : ∀ (g : Nat), decGeneral (primCb boolBody) name (g + 2) true (some (.bool b)) (w₂ ++ (closeTag name ++ rest)) =
+      some (some (.bool b), rest) := by
+    intro g
+    by_cases hw : w₂ = []
+    · subst hw
+      rw [List.nil_append, dg_close _ _ hn]
+    · rw [closeTag_eq, dg_text _ _ _ _ _ _ hw (wsOnly_noLT h₂)]
+      have : w₂.all isWsP = true := h₂
+      simp only [primCb, this, if_true, Option.bind_some]
+      rw [← closeTag_eq, dg_close _ _ hn]
+  rcases step1 (f + 2) (w₂ ++ (closeTag name ++ rest)) with h | h
+  · rw [h, step2 f]
+  · rw [h, step2 (f + 1)]
 
 /-- `S ::= SEQUENCE { b BOOLEAN }` -/
 def exBoolSeq : XTop := ⟨[83], .seq [[98]] [.boolean] [⟨false, none, false⟩] none⟩
 
-/-- known finding F59: `<S><b> <true/> </b></S>` is rejected, `<S> <b><true/></b> </S>` is accepted -/
+/-- the former witness of finding F59: `<S><b> <true/> </b></S>` is accepted (it was rejected) like
+    `<S> <b><true/></b> </S>`; an element without a value remains an error -/
 theorem ref_F59_witness :
-    decXER exBoolSeq [60, 83, 62, 60, 98, 62, 32, 60, 116, 114, 117, 101, 47, 62, 32, 60, 47, 98, 62, 60, 47, 83, 62] = none ∧
-    decXER exBoolSeq [60, 83, 62, 32, 60, 98, 62, 60, 116, 114, 117, 101, 47, 62, 60, 47, 98, 62, 32, 60, 47, 83, 62] = some (.seq [.bool true]) := by
-  refine ⟨rfl, rfl⟩
+    Xer.strBytes "<S><b> <true/> </b></S>" = [60, 83, 62, 60, 98, 62, 32, 60, 116, 114, 117, 101, 47, 62, 32, 60, 47, 98, 62, 60, 47, 83, 62] ∧
+    decXER exBoolSeq [60, 83, 62, 60, 98, 62, 32, 60, 116, 114, 117, 101, 47, 62, 32, 60, 47, 98, 62, 60, 47, 83, 62] = some (.seq [.bool true]) ∧
+    -- `<S> <b><true/></b> </S>`, `<S><b> </b></S>`, `<S><b/></S>`
+    decXER exBoolSeq [60, 83, 62, 32, 60, 98, 62, 60, 116, 114, 117, 101, 47, 62, 60, 47, 98, 62, 32, 60, 47, 83, 62] = some (.seq [.bool true]) ∧
+    decXER exBoolSeq [60, 83, 62, 60, 98, 62, 32, 60, 47, 98, 62, 60, 47, 83, 62] = none ∧
+    decXER exBoolSeq [60, 83, 62, 60, 98, 47, 62, 60, 47, 83, 62] = none := by
+  refine ⟨by decide +kernel, rfl, rfl, rfl, rfl⟩
 
-/-- proposed finding F150: BMPString "a<b" is written as `<T>a<b</T>` (no escaping) and does not decode -/
+/-- **F150 (repaired)**: BMPString round-trips, whatever characters it holds -/
+theorem xer_roundtrip_bmpstring (c : Bool) (name bs enc : Bytes) (hn : nameOk name = true) (hb : bmpOk bs = true)
+    (he : encXER c ⟨name, .bmpstr⟩ (.octets bs) = some enc) : decXER ⟨name, .bmpstr⟩ enc = some (.octets bs) :=
+  xer_roundtrip c ⟨name, .bmpstr⟩ (.octets bs) enc (by simp [topOk, hn, rtTy]) (by simpa [rtVal] using hb) he
+
+/-- ... and so does UniversalString (code points below 2^31: the UTF-8 form of `UniversalString__dump` has 31 bits) -/
+theorem xer_roundtrip_universalstring (c : Bool) (name bs enc : Bytes) (hn : nameOk name = true) (hb : uniOk bs = true)
+    (he : encXER c ⟨name, .unistr⟩ (.octets bs) = some enc) : decXER ⟨name, .unistr⟩ enc = some (.octets bs) :=
+  xer_roundtrip c ⟨name, .unistr⟩ (.octets bs) enc (by simp [topOk, hn, rtTy]) (by simpa [rtVal] using hb) he
+
+/-- the former witness of finding F150: BMPString "a<b" is written as `<T>a&lt;b</T>` (it was `<T>a<b</T>`, which does
+    not decode) like the UTF8String "a<b", and decodes to itself; so does the BMPString `&amp;` -/
 theorem ref_F150_witness :
-    encXER true ⟨[84], .bmpstr⟩ (.octets [0, 97, 0, 60, 0, 98]) = some [60, 84, 62, 97, 60, 98, 60, 47, 84, 62] ∧
+    Xer.strBytes "<T>a&lt;b</T>" = [60, 84, 62, 97, 38, 108, 116, 59, 98, 60, 47, 84, 62] ∧
+    encXER true ⟨[84], .bmpstr⟩ (.octets [0, 97, 0, 60, 0, 98]) = some [60, 84, 62, 97, 38, 108, 116, 59, 98, 60, 47, 84, 62] ∧
+    decXER ⟨[84], .bmpstr⟩ [60, 84, 62, 97, 38, 108, 116, 59, 98, 60, 47, 84, 62] = some (.octets [0, 97, 0, 60, 0, 98]) ∧
+    -- the former encoding `<T>a<b</T>`
     decXER ⟨[84], .bmpstr⟩ [60, 84, 62, 97, 60, 98, 60, 47, 84, 62] = none ∧
     encXER true ⟨[84], .utf8str⟩ (.octets [97, 60, 98]) = some [60, 84, 62, 97, 38, 108, 116, 59, 98, 60, 47, 84, 62] ∧
-    decXER ⟨[84], .utf8str⟩ [60, 84, 62, 97, 38, 108, 116, 59, 98, 60, 47, 84, 62] = some (.octets [97, 60, 98]) := by
-  refine ⟨rfl, rfl, rfl, rfl⟩
+    Xer.strBytes "<T>&amp;amp;<nul/></T>" = [60, 84, 62, 38, 97, 109, 112, 59, 97, 109, 112, 59, 60, 110, 117, 108, 47, 62, 60, 47, 84, 62] ∧
+    encXER true ⟨[84], .bmpstr⟩ (.octets [0, 38, 0, 97, 0, 109, 0, 112, 0, 59, 0, 0]) = some [60, 84, 62, 38, 97, 109, 112, 59, 97, 109, 112, 59, 60, 110, 117, 108, 47, 62, 60, 47, 84, 62] ∧
+    decXER ⟨[84], .bmpstr⟩ [60, 84, 62, 38, 97, 109, 112, 59, 97, 109, 112, 59, 60, 110, 117, 108, 47, 62, 60, 47, 84, 62] = some (.octets [0, 38, 0, 97, 0, 109, 0, 112, 0, 59, 0, 0]) := by
+  refine ⟨by decide +kernel, rfl, rfl, rfl, rfl, by decide +kernel, rfl, rfl⟩
+
+/-- the former witness of finding F152: a numeric character reference without digits or of value zero is a decoding
+    error (the C code aborted on `assert(val > 0)`); references to characters are expanded -/
+theorem ref_F152_witness :
+    Xer.strBytes "<T>&#x;</T>" = [60, 84, 62, 38, 35, 120, 59, 60, 47, 84, 62] ∧
+    decXER ⟨[84], .utf8str⟩ [60, 84, 62, 38, 35, 120, 59, 60, 47, 84, 62] = none ∧
+    -- `<T>&#;</T>`, `<T>a&#0;</T>`, `<T>&#x41;&#66;</T>`
+    decXER ⟨[84], .utf8str⟩ [60, 84, 62, 38, 35, 59, 60, 47, 84, 62] = none ∧
+    decXER ⟨[84], .utf8str⟩ [60, 84, 62, 97, 38, 35, 48, 59, 60, 47, 84, 62] = none ∧
+    decXER ⟨[84], .utf8str⟩ [60, 84, 62, 38, 35, 120, 52, 49, 59, 38, 35, 54, 54, 59, 60, 47, 84, 62] = some (.octets [65, 66]) := by
+  refine ⟨by decide +kernel, rfl, rfl, rfl, rfl⟩
 
 /-- finding F30 on a concrete value: `<T>5</T>\n` is 9 octets, 8 are consumed -/
 theorem ref_F30_witness :
